@@ -19,6 +19,7 @@ package main
 // spec/ZInputTrace.tla decides.  Events: reset, cmd{...}, panic, died, hung.
 
 import (
+	"net/http"
 	"bufio"
 	"bytes"
 	"encoding/hex"
@@ -163,6 +164,16 @@ func inpChild(dir string, port int, eng, policy string) error {
 			b, _ := json.Marshal(ix)
 			if err := nd.ProposeChangeTableSchema("ta", &node.SchemaChange{Type: node.SchemaChangeAddHsetIndex, Table: "ta", SchemaData: b}); err != nil {
 				return fmt.Errorf("index ddl: %v", err)
+			}
+			// the life cycle the placement driver walks an index through: building, built, ready
+			for _, st := range []common.IndexState{common.BuildingIndex, common.BuildDoneIndex, common.ReadyIndex} {
+				u := *ix
+				u.State = st
+				ub, _ := json.Marshal(&u)
+				if err := nd.ProposeChangeTableSchema("ta", &node.SchemaChange{Type: node.SchemaChangeUpdateHsetIndex, Table: "ta", SchemaData: ub}); err != nil {
+					return fmt.Errorf("index state %v: %v", st, err)
+				}
+				time.Sleep(100 * time.Millisecond)
 			}
 		}
 	}
@@ -503,7 +514,7 @@ func inpValid() map[string][]string {
 		"hget": {K("hsA1"), "f1"}, "stale.hget.version": {K("hsA1"), "f1"}, "stale.hgetall.expired": {K("hsA1")},
 		"stale.hmget.expired": {K("hsA1"), "f1", "f2"}, "hgetall": {K("hsA1")}, "hkeys": {K("hsA1")}, "hvals": {K("hsA1")},
 		"hexists": {K("hsA1"), "f1"}, "hmget": {K("hsA1"), "f1", "f2"}, "hlen": {K("hsA1")},
-		"hset": {K("hsA1"), "f3", "v"}, "hsetnx": {K("hsA1"), "f4", "v"}, "hmset": {K("hsA1"), "f1", "2", "f5", "v"},
+		"hset": {K("hsA1"), "f1", "7"}, "hsetnx": {K("hsA1"), "f4", "v"}, "hmset": {K("hsA1"), "f1", "2", "f5", "v"},
 		"hdel": {K("hsA1"), "f2", "f9"}, "hincrby": {K("hsA1"), "f1", "3"}, "hclear": {K("hsA2")},
 		"json.get": {K("jsA1"), "a"}, "json.keyexists": {K("jsA1")}, "json.mkget": {K("jsA1"), K("jsA2"), "a"},
 		"json.type": {K("jsA1"), "a"}, "json.arrlen": {K("jsA1"), "arr"}, "json.objkeys": {K("jsA1"), "o"},
@@ -828,7 +839,14 @@ func inpForeign(changed []string, addressed []string, known []string) []string {
 		own := false
 		for _, a := range addressed {
 			if len(a) > 7 {
-				a = a[:7] // memcmp-encoded keys are stored in groups of 8 bytes with a marker byte in between
+				// memcmp-encoded keys are stored in groups of 8 bytes with a marker byte in between, and
+				// the alignment differs between record kinds (index records carry table:key): a long
+				// mutated key is recognised by its first 7 or, failing that, its first 4 bytes
+				if strings.Contains(raw, a[:4]) {
+					own = true
+					break
+				}
+				a = a[:7]
 			}
 			if a != "" && strings.Contains(raw, a) {
 				own = true
@@ -940,8 +958,8 @@ func inpHead(ss []string, n int) []string {
 		if i >= n {
 			break
 		}
-		if len(s) > 80 {
-			s = s[:80]
+		if len(s) > 240 {
+			s = s[:240]
 		}
 		out = append(out, s)
 	}
@@ -1206,6 +1224,7 @@ func inputsim(args []string) error {
 	group := fs.Int("group", 1, "path 2: vectors per apply group")
 	hidx := fs.Bool("hidx", false, "define secondary hash indexes (HIDX) on table ta in the child and on path 2")
 	expired := fs.Bool("expired", false, "prior state with expired and nearly expired objects (wait_compact policy)")
+	httpAdmin := fs.Bool("http", false, "also send malformed requests to the HTTP API of the data node (delrange, toggles, optimize, ...)")
 	vecs := fs.String("vecs", "", "isolate=vecs: JSON list of vectors (lists of strings, \\xNN escapes allowed) sent in this order")
 	fs.Parse(args)
 	if *mode == "child" {
@@ -1259,6 +1278,9 @@ func inputsim(args []string) error {
 			// leading elements when it meets the bad one (error path with a non-empty write batch)
 			if k := d.rw[v.name]; (k == "w" || k == "mw") && strings.HasPrefix(v.mut, "sub") && strings.Contains(v.mut, `="SSSSSS`) {
 				always = true
+			}
+			if inpHidx && strings.HasPrefix(v.mut, "num") && (v.name == "hset" || v.name == "hmset" || v.name == "hincrby" || v.name == "hsetnx") {
+				always = true // values of indexed fields: the index-maintaining paths see every bad number
 			}
 			if k := d.rw[v.name]; (k == "w" || k == "mw") && v.mut == "biglast" {
 				always = true
@@ -1359,6 +1381,14 @@ func inputsim(args []string) error {
 				d.p = nil
 			}
 		}
+	}
+	if *httpAdmin && *isolate == "" {
+		if d.p == nil || !d.p.alive() {
+			if err := d.startChild(); err != nil {
+				return err
+			}
+		}
+		d.httpStage()
 	}
 	if d.p != nil {
 		d.collectAccepted(false)
@@ -1471,7 +1501,7 @@ func inpApplyPath(d *inpDrv, outp string, parts int, seed int64, group int, isol
 			if len(seg) == 0 {
 				return
 			}
-			inpApplySegment(d, cf[0], cf[1], seg, st)
+			inpApplySegment(d, cf[0], cf[1], seg, st, inpGroups[(ci+int(seed))%len(inpGroups)])
 			seg = nil
 		}
 		var first [][]string
@@ -1504,7 +1534,7 @@ func inpApplyPath(d *inpDrv, outp string, parts int, seed int64, group int, isol
 	return st
 }
 
-func inpApplySegment(d *inpDrv, eng, policy string, vecs [][]string, st map[string]int) {
+func inpApplySegment(d *inpDrv, eng, policy string, vecs [][]string, st map[string]int, g int) {
 	main, err := detOpenSM(d.scratch, eng, policy)
 	if err != nil {
 		return
@@ -1515,8 +1545,22 @@ func inpApplySegment(d *inpDrv, eng, policy string, vecs [][]string, st map[stri
 		return
 	}
 	defer twin.close()
-	d.tw.Emit(trace.M{"ev": "reset", "path": "apply", "eng": eng, "policy": policy})
+	if inpHidx {
+		for _, ix := range inpIndexes() {
+			for _, sm := range []*detSM{main, twin} {
+				sm.store().AddHsetIndex("ta", ix)
+				for _, st := range []common.IndexState{common.BuildingIndex, common.BuildDoneIndex, common.ReadyIndex} {
+					u := *ix
+					u.State = st
+					sm.store().UpdateHsetIndexState("ta", &u)
+					time.Sleep(20 * time.Millisecond)
+				}
+			}
+		}
+	}
+	d.tw.Emit(trace.M{"ev": "reset", "path": "apply", "eng": eng, "policy": policy, "group": g})
 	st["apply_segments"]++
+	st[fmt.Sprintf("apply_segments_group%d", g)]++
 	base := time.Now().Add(-time.Hour).UnixNano()
 	pre, _ := main.rawDump(inpSkipRaw)
 	// "leader check on state S, apply on a later state S'": two clients may both pass the
@@ -1538,6 +1582,10 @@ func inpApplySegment(d *inpDrv, eng, policy string, vecs [][]string, st map[stri
 		}
 	}
 	vecs = twice
+	if g > 1 {
+		inpApplyGrouped(d, main, twin, vecs, st, g, base, pre)
+		return
+	}
 	for i, v := range vecs {
 		if len(v) == 0 {
 			continue
@@ -1594,5 +1642,225 @@ func inpApplySegment(d *inpDrv, eng, policy string, vecs [][]string, st map[stri
 		st["cmd_apply"]++
 		st["apply_cls_"+cls]++
 		pre = post
+	}
+}
+
+
+// inpApplyGrouped: path 2 with several vectors per apply group (one batch operator, commit at the
+// end, as applyEntries does with the committed entries of one Ready).  Inside a group only the
+// replies are observable; the store is observed after the group.  Per vector a `cmd` event
+// without a state change is logged (error replies must not be followed by a difference to the
+// twin), then one event for the group: its post-state must equal the twin's, which applied only
+// the vectors that were answered without error, and only keys addressed by the group may change.
+func inpApplyGrouped(d *inpDrv, main, twin *detSM, vecs [][]string, st map[string]int, g int, base int64, pre map[string]string) {
+	for lo := 0; lo < len(vecs); lo += g {
+		hi := lo + g
+		if hi > len(vecs) {
+			hi = len(vecs)
+		}
+		var es []detEntry
+		var vs [][]string
+		for i := lo; i < hi; i++ {
+			if len(vecs[i]) == 0 {
+				continue
+			}
+			vs = append(vs, vecs[i])
+			es = append(es, detEntry{Ts: base + int64(i)*int64(time.Millisecond), Cmds: [][]string{vecs[i]}})
+		}
+		if len(es) == 0 {
+			continue
+		}
+		rs, pan := main.applyGroup(es, 0, len(es), false)
+		if pan != "" {
+			bad := vs[0]
+			for _, x := range rs {
+				if x.R == "PANIC" && x.Idx/100 < len(vs) {
+					bad = vs[x.Idx/100]
+					break
+				}
+			}
+			d.seq++
+			d.tw.Emit(trace.M{"ev": "panic", "seq": d.seq, "path": "apply", "name": strings.ToLower(bad[0]), "mut": "accepted", "args": inpShow(bad),
+				"cause": pan, "prev": [][]string{}, "trig": inpLogTrigger(bad)})
+			st["panic"]++
+			d.fatal = append(d.fatal, map[string]interface{}{"ev": "panic", "args": inpShow(bad), "cause": pan})
+			return
+		}
+		reply := map[int]string{}
+		for _, x := range rs {
+			reply[x.Idx/100] = x.R
+		}
+		pd := detDigest(pre)
+		var tes []detEntry
+		var okR []string
+		var addressed []string
+		trig := ""
+		for j, v := range vs {
+			r, ok := reply[j]
+			if !ok {
+				r = "NO-TRIGGER"
+			}
+			cls := "ok"
+			if strings.HasPrefix(r, "e:") {
+				cls = "err"
+			} else if r == "NO-TRIGGER" {
+				cls = "noreply"
+			}
+			if cls == "ok" {
+				tes = append(tes, es[j])
+				okR = append(okR, r)
+			}
+			addressed = append(addressed, inpKeyPartsLog(v)...)
+			if t := inpLogTrigger(v); t != "" && trig == "" {
+				trig = t
+			}
+			if len(r) > 120 {
+				r = r[:120]
+			}
+			d.seq++
+			d.tw.Emit(trace.M{"ev": "cmd", "seq": d.seq, "path": "apply", "name": strings.ToLower(v[0]), "mut": "accepted-in-group", "rw": "w",
+				"cls": cls, "r": r, "pre": pd, "dg": pd, "nchg": 0, "chg": []string{}, "foreign": []string{}, "want": "", "probe": false,
+				"tw": "", "rt": "", "argc": len(v), "trig": inpLogTrigger(v)})
+			st["cmd_apply"]++
+			st["apply_cls_"+cls]++
+		}
+		post, _ := main.rawDump(inpSkipRaw)
+		var twR []string
+		if len(tes) > 0 {
+			trs, tp := twin.applyGroup(tes, 0, len(tes), false)
+			if tp != "" {
+				twR = []string{"PANIC"}
+			}
+			for _, x := range trs {
+				twR = append(twR, x.R)
+			}
+		}
+		td, _ := twin.rawDump(inpSkipRaw)
+		ch := inpDiff(pre, post)
+		foreign := inpForeign(ch, addressed, d.known)
+		if foreign == nil {
+			foreign = []string{}
+		}
+		d.seq++
+		d.tw.Emit(trace.M{"ev": "cmd", "seq": d.seq, "path": "apply", "name": "group", "mut": fmt.Sprintf("group-of-%d", len(vs)), "rw": "w",
+			"cls": "ok", "r": detShort([]byte(strings.Join(okR, "|"))), "pre": pd, "dg": detDigest(post), "nchg": len(ch), "chg": inpHead(ch, 4),
+			"foreign": foreign, "want": "", "probe": false, "tw": detDigest(td), "rt": detShort([]byte(strings.Join(twR, "|"))), "argc": len(vs), "trig": trig})
+		st["apply_groups"]++
+		pre = post
+	}
+}
+
+
+// ---------------------------------------------------------------- HTTP admin surface
+
+type inpHTTPVec struct {
+	method, path, body string
+	keys                []string // client keys the request may legitimately change (delrange)
+}
+
+func inpHTTPVectors() []inpHTTPVec {
+	var out []inpHTTPVec
+	bodies := []string{"", "{", "null", "[]", `"x"`, `{"table":1}`, `{"start_from":"!!notbase64"}`, `{"delete_all":"yes"}`,
+		`{"start_from":"eg==","end_to":"YQ=="}`, `{"start_from":"ZHJB","end_to":"ZHJC","dryrun":true}`, `{"delete_all":true,"dryrun":true}`,
+		`{"start_from":"ZHJB","end_to":"ZHJC"}`, "\x00\xff\xfe{", strings.Repeat("[", 200000), `{"table":"` + strings.Repeat("T", 70000) + `"}`,
+		`{"start_from":12345678901234567890123}`, `{"start_from":null,"end_to":null,"delete_all":false}`}
+	dr := []string{inpNS + ":dr:drA1", inpNS + ":dr:drA2", inpNS + ":dr:drA3"}
+	for _, ns := range []string{inpNS + "-0", inpNS, "nons-0", "%ff", ""} {
+		for _, b := range bodies {
+			out = append(out, inpHTTPVec{"POST", "/kv/delrange/" + ns + "/dr", b, dr})
+		}
+	}
+	for _, b := range bodies[:10] {
+		out = append(out, inpHTTPVec{"POST", "/kv/delrange/" + inpNS + "-0/%ff%fe", b, nil})
+		out = append(out, inpHTTPVec{"POST", "/kv/optimize_anyrange/" + inpNS + "-0", b, nil})
+		out = append(out, inpHTTPVec{"POST", "/syncer/setindex/x", b, nil})
+	}
+	for _, p := range []string{"/staleread", "/staleread?allow=", "/staleread?allow=maybe", "/staleread?allow=%zz", "/staleread?allow=false",
+		"/synceronly", "/synceronly?enable=maybe", "/synceronly?enable=false", "/disableconflictlog?disable=x", "/loglevel/set",
+		"/loglevel/set?loglevel=abc", "/loglevel/set?loglevel=99999999999999999999", "/slowlog/set?loglevel=-1x", "/costlevel/set?level=zzz",
+		"/rsynclimit?limit=-5x", "/conf/set", "/conf/set?type=int&key=&value=", "/conf/set?type=int&key=nokey&value=notnum",
+		"/conf/set?type=str&key=%ff&value=%ff", "/kv/optimize/" + inpNS + "-0/%ff", "/kv/optimize/nons-0/ta", "/kv/optimize_expire/nons-0",
+		"/kv/backup/nons-0", "/topn/enable/nons-0", "/topn/enable/" + inpNS + "-0?enable=x", "/kv/disable_optimize?x=y"} {
+		out = append(out, inpHTTPVec{"POST", p, "", nil})
+	}
+	for _, p := range []string{"/kv/get/" + inpNS + "-0", "/kv/get/" + inpNS + "-0?key=", "/kv/get/nons-0?key=a", "/kv/get/" + inpNS + "-0?key=%ff%00",
+		"/indexes/" + inpNS + "-0/%ff", "/indexes/nons", "/raft/leader/nons-0", "/conf/get?type=int&key=", "/conf/get?type=zz&key=x",
+		"/synceronly", "/info?x=%zz", "/stats?table=%ff&leader_only=x"} {
+		out = append(out, inpHTTPVec{"GET", p, "", nil})
+	}
+	return out
+}
+
+// httpStage: requests a client that reaches the HTTP port can send.  A status >= 400 is an
+// error reply (the store must not change); any other answer of an endpoint that is not a range
+// deletion must not change the store either; a range deletion may change only keys of the table
+// it names.  Liveness is checked like on the redis path.
+func (d *inpDrv) httpStage() {
+	for _, c := range [][]string{{"set", inpNS + ":dr:drA1", "v"}, {"set", inpNS + ":dr:drA2", "v"}, {"hset", inpNS + ":dr:drA3", "f", "v"}} {
+		d.send(inpVec{name: c[0], mut: "valid", args: c}, "", false)
+	}
+	d.known = append(d.known, "drA1", "drA2", "drA3")
+	cli := &http.Client{Timeout: 8 * time.Second}
+	for _, hv := range inpHTTPVectors() {
+		if d.p == nil || !d.p.alive() {
+			return
+		}
+		pre := d.last
+		req, err := http.NewRequest(hv.method, "http://127.0.0.1:"+strconv.Itoa(d.p.port+1)+hv.path, strings.NewReader(hv.body))
+		if err != nil {
+			continue // not expressible as a request
+		}
+		cls, r := "ok", ""
+		resp, err := cli.Do(req)
+		if err != nil {
+			cls, r = "noreply", "x:"+err.Error()
+		} else {
+			b, _ := ioutil.ReadAll(io.LimitReader(resp.Body, 200))
+			resp.Body.Close()
+			r = fmt.Sprintf("h:%d %s", resp.StatusCode, strings.TrimSpace(string(b)))
+			if resp.StatusCode >= 400 {
+				cls = "err"
+			}
+		}
+		name := "http:" + hv.method + " " + strings.SplitN(hv.path, "?", 2)[0]
+		v := inpVec{name: name, mut: "http", args: append([]string{name}, hv.keys...)}
+		d.rw[name] = "r"
+		if hv.keys != nil {
+			d.rw[name] = "w"
+		}
+		if cls == "noreply" {
+			// is the process still serving?
+			ok := false
+			for try := 0; try < 4 && d.p.alive(); try++ {
+				if c2, e2 := inpDial(d.p.port); e2 == nil {
+					_, e2 = c2.do([]string{"ping"}, 6*time.Second)
+					c2.c.Close()
+					if e2 == nil {
+						ok = true
+						break
+					}
+				}
+				time.Sleep(time.Second)
+			}
+			if !ok {
+				v.args = []string{name, hv.body}
+				if len(hv.body) > 60 {
+					v.args[1] = hv.body[:60]
+				}
+				d.gone(v, map[bool]string{true: "hung", false: ""}[d.p.alive()])
+				d.p = nil
+				return
+			}
+		}
+		post := d.p.dump()
+		if post == nil {
+			d.gone(v, map[bool]string{true: "hung", false: ""}[d.p.alive()])
+			d.p = nil
+			return
+		}
+		d.recent = append(d.recent, []string{hv.method, hv.path, fmt.Sprintf("%.60q", hv.body)})
+		d.recentRaw = append(d.recentRaw, []string{name})
+		d.emitCmd("http", v, cls, r, pre, post, "", false, "", "")
+		d.last = post
 	}
 }
